@@ -20,10 +20,21 @@ func (s *scope) pop() {
 // makevar generates and returns a new JS name for the given variable name, adds
 // that mapping to this scope.
 func (s *scope) makevar(varname string) string {
-	s.n++
-	var genName = varname + strconv.Itoa(s.n)
-	s.stack[len(s.stack)-1][varname] = genName
+	var genName = s.newname(varname)
+	s.bind(varname, genName)
 	return genName
+}
+
+// newname generates a new JS name for the given variable name, without adding
+// a mapping to this scope.
+func (s *scope) newname(varname string) string {
+	s.n++
+	return varname + strconv.Itoa(s.n)
+}
+
+// bind maps the variable name to the given JS name in the current scope.
+func (s *scope) bind(varname, genName string) {
+	s.stack[len(s.stack)-1][varname] = genName
 }
 
 func (s *scope) lookup(varname string) string {
